@@ -58,10 +58,10 @@ Proof. intros C s fuel h t HG. apply (staircase_gen true); auto. intros _. apply
 
 (* the staircase theorem with source-level hypotheses *)
 Theorem staircase_full : forall C s fuel h t,
-  src_wf C s = true -> guard_C17_zero_factor_depth 0 s = true -> guard_C17_key_collision s = true ->
+  src_wf C s = true -> guard_C17_key_collision s = true ->
   pipeline fuel C s = Ok (h, t) ->
   plays h (fst (staircase s)) = true /\ Qeq_bool t (snd (staircase s)) = true.
-Proof. intros C s fuel h t HW HZ HK. apply staircase_rep; auto. apply built_ok_of_source; auto. Qed.
+Proof. intros C s fuel h t HW HK. apply staircase_rep; auto. apply built_ok_of_source; auto. Qed.
 
 (* the statement of round 1 (Spec.v, two guards) is false of the model in two corner classes *)
 Definition wit_resolution : src :=
@@ -83,14 +83,14 @@ Proof.
   eapply (refute_statement 1%nat wit_resolution 200%positive); vm_compute; reflexivity.
 Qed.
 
-Lemma statement_refuted_extra_coef : ~ C17_staircase_statement /\ guard_C17_zero_factor_depth 0 wit_extra_coef = false.
-Proof.
-  split; [|vm_compute; reflexivity].
-  eapply (refute_statement 1%nat wit_extra_coef 200%positive); vm_compute; reflexivity.
-Qed.
+(* an affine voltage whose only non-zero coefficient belongs to no enclosing loop is built with all-zero factors; since
+   the repair of `zero-factor-aliases-plain` it is a plain voltage and plays right *)
+Lemma extra_coef_plays :
+  exists h t, pipeline 200 1 wit_extra_coef = Ok (h, t) /\ plays h (fst (staircase wit_extra_coef)) = true.
+Proof. eexists; eexists. split; vm_compute; reflexivity. Qed.
 
 Lemma staircase_full_nonvacuous :
-  src_wf 2 wit_good = true /\ guard_C17_zero_factor_depth 0 wit_good = true /\ guard_C17_key_collision wit_good = true /\
+  src_wf 2 wit_good = true /\ guard_C17_key_collision wit_good = true /\
   exists h t, pipeline 1000 2 wit_good = Ok (h, t) /\ length h = 21%nat.
 Proof.
   repeat split; try (vm_compute; reflexivity). eexists; eexists. split; vm_compute; reflexivity.
